@@ -240,6 +240,13 @@ def resolve_unwindset(h, tdir, harness_dir, logdir):
     d = {}
     for l, b in pairs:
         d[l] = b
+    # loops of CBMC's built-in C library are linked in after codegen and are not listed by --show-loops
+    for builtin in ('memcmp.0',):
+        for rx, bound in h['uws']:
+            if re.search(rx, builtin):
+                d[builtin] = bound
+                if rx in unmatched:
+                    unmatched.remove(rx)
     return d, ('unmatched: ' + ','.join(unmatched)) if unmatched else ''
 
 
